@@ -10,4 +10,6 @@ CARGO_TARGET_DIR="$ROOT/target/plain" cargo build --offline --release -p sim_pb 
 CARGO_TARGET_DIR="$ROOT/target/plain" cargo build --offline --profile ship -p sim_pb || fail=1
 CARGO_TARGET_DIR="$ROOT/target/plain" cargo build --offline --release -p sim_iter || fail=1
 CARGO_TARGET_DIR="$ROOT/target/plain" cargo build --offline --release -p sim_generator || fail=1
+CARGO_TARGET_DIR="$ROOT/target/plain" cargo build --offline --release -p sim_serialize || fail=1
+CARGO_TARGET_DIR="$ROOT/target/plain" cargo build --offline --profile ship -p sim_serialize || fail=1
 exit $fail
